@@ -48,6 +48,7 @@ def instances(tier):
         out.append({"kind": "version", "gen": g})
         out.append({"kind": "error_cycle", "gen": g})
         out.append({"kind": "unknown_entity", "gen": g})
+        out.append({"kind": "noncontiguous", "gen": g})
         if tier == "thorough":
             out.append({"kind": "ac_status", "gen": g, "frames": 3})
             out.append({"kind": "zone_status", "gen": g, "frames": 3})
@@ -222,6 +223,16 @@ def run(ctx, p):
     g = Gen(p["gen"])
     kind = p["kind"]
     inst = Installation.simple(g.n, n_acs=2, zones_per_ac=2)
+    if kind == "noncontiguous":
+        # AC numbers with a gap (and zones with a gap): reports list unknown ids *between* known ones
+        hi_ac = 2 if g.n == 4 else 5
+        inst.acs[1]["number"] = hi_ac
+        inst.ac_status[hi_ac] = list(inst.ac_status.pop(1))
+        if g.n == 4:
+            inst.ac_status[hi_ac][0] = (inst.ac_status[hi_ac][0] & 0xC0) | hi_ac
+        else:
+            inst.ac_status[hi_ac][0] = (inst.ac_status[hi_ac][0] & 0xF0) | hi_ac
+        inst.timers[hi_ac] = inst.timers.pop(1)
     with ApiRig(ctx, g, inst) as rig:
         con = rig.console
         rig.start()
@@ -321,6 +332,29 @@ def run(ctx, p):
             push(con.ac_status_frame(pid=0x48, only=[ac]))
             ei = rig.ac(ac).error_info
             ctx.check(ei is not None and ei.description is None, "error_details", detail="stale error text shown for a new error")
+            ctx.check(len(rig.net.conns) == n_conn and not rig.task_failures(), "frame_accepted")
+        elif kind == "noncontiguous":
+            A = api()
+            hi_ac = 2 if g.n == 4 else 5
+            which = ctx.choice("what", 2)
+            if which == 0:
+                # timer report: entries for unknown ACs precede the known one; its timers must still update
+                tm = (ctx.bits("on_dis", 1), ctx.int("on_h", 0, 23), ctx.int("on_m", 0, 59), 1, 0, 0)
+                inst.timers = {0: (1, 0, 0, 1, 0, 0), (1 if g.n == 4 else 3): (0, 5, 5, 0, 6, 6), hi_ac: tm}
+                push(con.timer_status_frame(pid=0x4B))
+                t = rig.ac(hi_ac).next_quick_timer(A.AcTimerType.ON_TIMER)
+                if bool(tm[0] == 1):
+                    ctx.check(t is None, "timer_getter", detail="non-contiguous AC numbers")
+                else:
+                    ctx.check(t is not None and bool(sym_and(t.hour == tm[1], t.minute == tm[2])), "timer_getter", detail="non-contiguous AC numbers")
+            else:
+                # status report: a record for an unknown AC followed by a free record for the known one
+                r, e = _sym_ac_record(ctx, g.n, hi_ac, "m")
+                unk = (r4.build_ac_status(1, 0, 1, 1, 1, 1, 30, 600, 7) if g.n == 4 else r5.build_ac_status(3, 0, 1, 1, 50, 1, 1, 1, 1, 600, 7))
+                inst.ac_status = {99: unk, hi_ac: r}
+                push(con.ac_status_frame(pid=0x4C))
+                getter = AC_GETTERS[ctx.choice("getter", 4)]
+                _check_ac_getter(ctx, g.n, rig.ac(hi_ac), e, inst.acs[1], getter)
             ctx.check(len(rig.net.conns) == n_conn and not rig.task_failures(), "frame_accepted")
         elif kind == "unknown_entity":
             # reports about ACs / zones the console never described are ignored; known ones keep their values
